@@ -153,6 +153,9 @@ pub fn addr_of(cfg: &E1Config, p: usize) -> SocketAddr {
         1 => SocketAddr::new(IpAddr::V6(Ipv4Addr::new(10, 0, 0, 1 + p as u8).to_ipv6_mapped()), port),
         2 => SocketAddr::new(IpAddr::V6(Ipv6Addr::new(0xfe80, 0xffff, 0x1234, 0xabcd, 0x8000, 0x7fff, 0xff00, 0x100 + p as u16)), port),
         3 => SocketAddr::new(IpAddr::V4(Ipv4Addr::new(255, 255, 255, 250 - p as u8)), if p == 0 { 65_535 } else { p as u16 }),
+        // link-local address with a scope id (`fe80::..%3`): legal for a node to advertise, but the
+        // scope id is not on the wire (known finding KF-4; C08 runs only)
+        4 => SocketAddr::V6(std::net::SocketAddrV6::new(Ipv6Addr::new(0xfe80, 0, 0, 0, 0, 0, 0, 1 + p as u16), port, 0, 2 + p as u32)),
         _ => {
             if cfg.ipv6 {
                 SocketAddr::new(IpAddr::V6(Ipv6Addr::new(0xfd00, 0, 0, 0, 0, 0, 0, 1 + p as u16)), port)
@@ -215,6 +218,15 @@ impl World {
 
     pub fn on(&self, prop: &str) -> bool {
         self.en.contains(prop)
+    }
+
+    /// Known finding KF-4 (C08): the scope id of an IPv6 address is part of `ChitchatId` equality but
+    /// not of the wire format, so a message that mentions such an id does not decode to an equal one.
+    pub fn known_kf4(&mut self, what: String) {
+        self.stats.inc("known_kf4");
+        if self.known_hits.len() < 4 {
+            self.known_hits.push(format!("KF-4 {what}"));
+        }
     }
 
     pub fn viol(&self, prop: &str, code: &str, detail: String) -> Violation {
@@ -411,7 +423,11 @@ impl World {
                         return Err(self.viol("C08", "C08.consumed", format!("real decoder left {} bytes", cur.len())));
                     }
                     if &back != real {
-                        return Err(self.viol("C08", "C08.roundtrip", format!("{} does not round-trip", msg.kind())));
+                        if strip_scope(&format!("{back:?}")) == strip_scope(&format!("{real:?}")) {
+                            self.known_kf4(format!("{} of n{p} does not round-trip: the scope id of an IPv6 address is not on the wire", msg.kind()));
+                        } else {
+                            return Err(self.viol("C08", "C08.roundtrip", format!("{} does not round-trip", msg.kind())));
+                        }
                     }
                 }
                 Err(e) => return Err(self.viol("C08", "C08.decode", format!("real decoder rejects own output: {e}"))),
@@ -429,7 +445,11 @@ impl World {
                     // Delta equality includes the recorded byte length, which legitimately differs
                     // between two encodings of the same content: compare the structure.
                     if !cur.is_empty() || strip_len(&format!("{back:?}")) != strip_len(&format!("{real:?}")) {
-                        return Err(self.viol("C08", "C08.indep_encode", format!("re-encoded {} decodes differently", msg.kind())));
+                        if cur.is_empty() && strip_scope(&strip_len(&format!("{back:?}"))) == strip_scope(&strip_len(&format!("{real:?}"))) {
+                            self.known_kf4(format!("re-encoded {} of n{p} decodes to ids without their IPv6 scope id", msg.kind()));
+                        } else {
+                            return Err(self.viol("C08", "C08.indep_encode", format!("re-encoded {} decodes differently", msg.kind())));
+                        }
                     }
                     if back.serialized_len() != re.len() {
                         return Err(self.viol(
@@ -462,7 +482,10 @@ impl World {
                     .map(|(rid, ns)| (Id::from_real(rid), codec::NodeDigest { heartbeat: u64::from(ns.heartbeat()), gc: ns.last_gc_version(), max: ns.max_version() }))
                     .filter(|(id, _)| !scheduled.contains(id))
                     .collect();
-                if d != &want {
+                let unscoped = |v: &Vec<(Id, codec::NodeDigest)>| -> Vec<(Id, codec::NodeDigest)> { v.iter().map(|(id, nd)| (Id { addr: without_scope(id.addr), ..id.clone() }, nd.clone())).collect() };
+                if d != &want && self.cfg.addr_kind == 4 && unscoped(d) == unscoped(&want) {
+                    self.known_kf4(format!("digest of n{p} on the wire lists its members without their IPv6 scope id"));
+                } else if d != &want {
                     let show = |v: &Vec<(Id, codec::NodeDigest)>| v.iter().take(4).map(|(id, nd)| format!("{}:(hb{},gc{},mv{})", id.short(), nd.heartbeat, nd.gc, nd.max)).collect::<Vec<_>>().join(" ");
                     let (prop, code) = if self.on("C08") { ("C08", "C08.digest_content") } else { ("C14", "C14.digest_misreports") };
                     return Err(self.viol(prop, code, format!("digest on the wire, read by the independent decoder: [{}]; sender state: [{}]", show(d), show(&want))));
@@ -664,6 +687,29 @@ impl World {
             self.stats.inc("known_KF1_hits");
         }
         Ok(())
+    }
+}
+
+/// Removes IPv6 scope ids (`%7`) from a Debug rendering.
+pub fn strip_scope(s: &str) -> String {
+    let mut out = String::with_capacity(s.len());
+    let mut it = s.chars().peekable();
+    while let Some(c) = it.next() {
+        if c == '%' && it.peek().map(|d| d.is_ascii_digit()).unwrap_or(false) {
+            while it.peek().map(|d| d.is_ascii_digit()).unwrap_or(false) {
+                it.next();
+            }
+        } else {
+            out.push(c);
+        }
+    }
+    out
+}
+
+pub fn without_scope(a: SocketAddr) -> SocketAddr {
+    match a {
+        SocketAddr::V6(v6) => SocketAddr::V6(std::net::SocketAddrV6::new(*v6.ip(), v6.port(), 0, 0)),
+        other => other,
     }
 }
 
